@@ -14,10 +14,41 @@ from .symex import explore, RaiseEx, PyException
 from . import frontend
 
 
+def _closure_dicts(f):
+    out = []
+    if f is None or not callable(f):
+        return out
+    for c in (getattr(f, "__closure__", None) or ()):
+        try:
+            v = c.cell_contents
+        except ValueError:
+            continue
+        if isinstance(v, dict):
+            out.append(v)
+    for v in (getattr(f, "__defaults__", None) or ()):
+        if isinstance(v, dict):
+            out.append(v)
+    return out
+
+
+def _shared_dicts(run, post, summaries=None):
+    """dict objects that run() (or a callee summary it installs) fills and post() reads: contract-local holders"""
+    src = _closure_dicts(run)
+    for s in (summaries or {}).values():
+        src += _closure_dicts(s)
+    dst = _closure_dicts(post)
+    out = []
+    for d in src:
+        if any(d is e for e in dst) and not any(d is e for e in out):
+            out.append(d)
+    return out
+
+
 def verify(chk, name, function, run, post, clause=None, replay=None, encoding="qf-arith", summaries=None,
            allow_raise=False, skip_defs=(), max_paths=64, frame=True, cover=True, loop_annotations=None, lemmas=None):
+    holders = _shared_dicts(run, post, summaries)
     try:
-        results = explore(run, max_paths=max_paths, summaries=summaries or {}, loop_annotations=loop_annotations or {})
+        results = explore(run, max_paths=max_paths, summaries=summaries or {}, loop_annotations=loop_annotations or {}, holders=holders)
     except Unsupported as ex:
         return fallback(chk, name, function, clause, "outside the executor's subset: %s" % ex)
     except frontend.SourceError as ex:
@@ -37,6 +68,9 @@ def verify(chk, name, function, run, post, clause=None, replay=None, encoding="q
             chk.add("%s.no-exception[%s]" % (tag, what[:80]), hyps, z3.BoolVal(False), function, "definedness", clause, replay, kind="definedness")
             continue
         npaths += 1
+        for h, snap in zip(holders, getattr(pr, "holder_snapshots", [])):
+            h.clear()
+            h.update(snap)          # the holder as this path left it
         try:
             clauses = post(pr) or []
         except Unsupported as ex:
